@@ -107,6 +107,15 @@ class PoolGen:
             self.tags.add("commit:foreign")
         elif k < 0.9:
             self.ops.append("commit " + self.newhash())          # unknown hash
+        elif k < 0.92:
+            # the follower case: a block of another leader commits ready transactions this pool holds but never batched
+            # itself (of an account with nothing batched here), while batches of its own may still be uncommitted; then the
+            # pool is asked for a batch.  Which transactions those are depends on the pool state: the op lets the harness
+            # and the model pick them by the same rule
+            self.ops.append(f"commitready {r.choice([1, 2, 2, 3])}")
+            self.tags.add("commit:held-never-batched")
+            self.obs()
+            self.ops.append("gen")
         elif k < 0.95:
             self.ops.append(f"evict cut={r.choice([self.group, max(0, self.group - 1), max(0, self.group - 3), 0])}")
             self.tags.add("evict")
@@ -201,7 +210,7 @@ def mon_pool(h, obs, prop):
                 gkv = [w for w in ws[1:4] if w.startswith("g=")]
                 if gkv:
                     group_of.setdefault(hh, int(gkv[0][2:]))
-        if k == "commitlast" and o.startswith("ok"):
+        if k in ("commitlast", "commitready") and o.startswith("ok"):
             for hh in (o[3:].split(",") if len(o) > 3 else []):
                 ptr = by_hash.get(hh)
                 committed.add(hh)
